@@ -118,5 +118,11 @@ func (c *Cond) Broadcast() {
 // Go replaces the go statement: background threads of the code under test
 // (logger, installer, shrinker) are daemons of the execution.
 func Go(f func()) {
-	vrt.Go("daemon", true, f)
+	vrt.Go("daemon", vrt.ClDaemon, f)
+}
+
+// GoWorker is what go statements of go-nfsd itself become (the shrinker): a
+// background thread that is scheduled like a client.
+func GoWorker(f func()) {
+	vrt.Go("worker", vrt.ClWorker, f)
 }
